@@ -17,10 +17,12 @@ CONFIG = {
              'invoke exactly the calls the reference model marks (functions whose version differs as a JSON value - '
              'absent == None, key order irrelevant, 1 == 1.0, tuple == list, True != 1 - plus their transitive '
              'callers, plus calls that are never cacheable), and its result and tree must equal the model run with '
-             'the new versions; JSON-equal respellings must invoke nothing new; evaluations = version-pair builds '
+             'the new versions; JSON-equal respellings must invoke nothing new; version entries for names that are not '
+             'functions of the program (harvested from the library\'s public API names and from every string in the '
+             'cache file it wrote: read, walk, list_dir, createdDirs, ...) must invalidate nothing; evaluations = version-pair builds '
              'judged; distinct_nontrivial = distinct (program shape, changed-name positions, kind of change)'),
     'gates': ['pairs', 'invalidated_nested', 'invalidated_top', 'stayed_cached_nested', 'stayed_cached_top',
-              'json_equal_respelling_pairs', 'json_different_pairs'],
+              'json_equal_respelling_pairs', 'json_different_pairs', 'foreign_version_names'],
 }
 
 DIFF = [(None, 0), (0, 1), (1, 2), (True, 1), (False, 0), ('1', 1), ([1, 2], [2, 1]), ({'a': 1}, {'a': 2}),
@@ -30,6 +32,37 @@ DIFF = [(None, 0), (0, 1), (1, 2), (True, 1), (False, 0), ('1', 1), ([1, 2], [2,
 SAME = [(1, 1.0), ({'a': 1, 'b': 2}, {'b': 2, 'a': 1}), ([1, 2], (1, 2)), (0, -0.0), ('v', 'v'),
         ({'a': [1, {'b': 2.0}]}, {'a': (1, {'b': 2})}), (2 ** 53, float(2 ** 53)), (None, None)]
 KINDS = {'result', 'tree', 'extra_invocation', 'missing_invocation', 'reused_output_rewritten'}
+
+
+_API_NAMES = None
+
+
+def harvested_names(cache_path):
+    global _API_NAMES
+    if _API_NAMES is None:
+        from ..env import FileBuilder
+        _API_NAMES = sorted(n for n in dir(FileBuilder) if not n.startswith('__')) + ['read', 'hash', 'metadata', '']
+    out = set(_API_NAMES)
+    try:
+        import gzip
+        import json as _json
+        with gzip.open(cache_path, 'rt') as f:
+            doc = _json.load(f)
+
+        def rec(x):
+            if isinstance(x, dict):
+                for k, v in x.items():
+                    out.add(k)
+                    rec(v)
+            elif isinstance(x, list):
+                for v in x:
+                    rec(v)
+            elif isinstance(x, str) and len(x) < 40 and '/' not in x:
+                out.add(x)
+        rec(doc)
+    except Exception:
+        pass
+    return sorted(out)
 
 
 def depth_of(mb):
@@ -100,6 +133,18 @@ def run_shard(sh):
                         else:
                             v2[f] = new
                         changed.append((f, 'diff'))
+                # versions for names that are NOT functions of this program must invalidate nothing:
+                # names harvested from the library's own vocabulary (its public API and every string
+                # found in the cache file it just wrote), so a collision with an internal operation
+                # or field name is constructed rather than guessed
+                if rng.random() < 0.35:
+                    pool = [x for x in harvested_names(w.cache) if x not in program['funcs']]
+                    for x in rng.sample(pool, min(len(pool), rng.randint(1, 3))):
+                        if x in v2 and rng.random() < 0.3:
+                            v2.pop(x)
+                        else:
+                            v2[x] = rng.choice([1, 2, 'v', None, [1], 0])
+                        sh.count('foreign_version_names')
                 # optionally reorder the dict itself
                 if rng.random() < 0.5:
                     v2 = dict(reversed(list(v2.items())))
